@@ -36,6 +36,10 @@ THEOREMS = [
     "Verif.C05.period_round_trip",
     "Verif.C05.period_round_trip_double",
     "Verif.C05.F7_witness_exact",
+    "Verif.C05.period_bound_witness",
+    "Verif.C05.tsStep_grid",
+    "Verif.C05.tsStep_some",
+    "Verif.C05.ts_sample_rate_spec",
     "Verif.C05.write_read",
     "Verif.C05.cropped_export_reads_back",
     "Verif.C05.channel_class_v1",
@@ -515,6 +519,8 @@ def ops(case):
         return [f"c05.dtu {enc_float(1e9 / case['dt'])}", f"c05.dtqu {enc_rat(1e9 / case['dt'])}"]
     if k == "num":
         return [f"c05.{case['what']} {case['x']}"]
+    if k == "tsrate":
+        return [f"c05.tsrate {enc_list(case['ts'])}"]
     if k == "omit":
         return [f"c05.omit {enc_listlist([[ord(c) for c in p] for p in case['pats']])} {enc_listlist([[ord(c) for c in p] for p in case['paths']])}"]
     if k == "calchan":
@@ -596,6 +602,11 @@ def impl(case):
             if case["what"] == "round":
                 return [str(round(float(x)))]  # x is a double: Python's round on it, as in from_dataset
             return [enc_rat(x.numerator / x.denominator)]  # one correctly rounded division, as in sample_rate
+        if k == "tsrate":
+            from lumicks.pylake.channel import Slice, TimeSeries
+
+            r_ = Slice(TimeSeries(np.zeros(len(case["ts"])), np.asarray(case["ts"], dtype=np.int64))).sample_rate
+            return ["N" if r_ is None else enc_rat(float(r_))]
         if k == "omit":
             return [_omit_impl(case)]
         if k == "dset":
@@ -932,6 +943,20 @@ def oracle(case, ia):
         else:
             ok = abs(got - x) * 2**53 <= abs(x)
         return None if ok else f"arithmetic: {case['what']}({case['x']}) = {ia[0]}"
+    if k == "tsrate":
+        from fractions import Fraction
+
+        ts = case["ts"]
+        steps = {b - a for a, b in zip(ts, ts[1:])}
+        if len(steps) != 1:
+            return None if ia[0] == "N" else f"sample-rate: a time series with steps {sorted(steps)} reports {ia[0]}"
+        exact = Fraction(10**9, steps.pop())
+        try:
+            p_, q_ = ia[0].split("/")
+            got = Fraction(int(p_), int(q_))
+        except Exception:
+            return f"sample-rate: a regular time series reports {ia[0]}"
+        return None if abs(got - exact) * 2**53 <= abs(exact) else f"sample-rate: a regular time series of step {Fraction(10**9) / exact} ns reports {float(got)!r} Hz"
     if k == "dtr":
         from fractions import Fraction
 
@@ -1136,6 +1161,8 @@ def nontrivial(case, ia):
         return ia[0] not in ("[]",) and ("T" in ia[0] or "F" in ia[0] or any(ch.isdigit() for ch in ia[0]))
     if k in ("dt", "dtr", "dtu", "num"):
         return True
+    if k == "tsrate":
+        return len(case["ts"]) >= 2
     if k == "attrs":
         return len(case["present"]) > 0
     if k in ("dset", "class"):
@@ -1325,6 +1352,27 @@ def cases(tier, rng):
             yield {"stream": "small-scope", "op": "dtr", "rate": enc_float(rate)}
     for dt in list(range(1, 201 if quick else 3001)):
         yield {"stream": "small-scope", "op": "dtu", "dt": dt}
+    # ---- sample rate of a time series: every increment pattern on up to 4 samples, and longer random ones
+    for n_ in range(0, 5):
+        for inc in itertools.product([0, 1, 2, 7], repeat=max(n_ - 1, 0)):
+            if n_ >= 2 and set(inc) == {0}:
+                continue  # a unique step of 0 divides by zero: outside the model
+            ts_ = [100]
+            for d_ in inc:
+                ts_.append(ts_[-1] + d_)
+            yield {"stream": "small-scope", "op": "tsrate", "ts": ts_[:n_]}
+    r = rng.fork("c05-tsrate")
+    for i in range(60 if quick else 2000):
+        sub = r.fork(i)
+        step = sub.choice([1, 3, 55, 1000, 12800, sub.randint(1, 10**9)])
+        n_ = sub.randint(2, 12)
+        ts_ = [sub.choice([0, 1_600_000_000_000_000_000]) + j * step for j in range(n_)]
+        if sub.chance(0.4):
+            ts_[sub.randint(1, n_ - 1)] += sub.choice([1, -1]) if step > 1 else 1
+            ts_ = sorted(ts_)
+            if len({b - a for a, b in zip(ts_, ts_[1:])}) == 1 and ts_[1] == ts_[0]:
+                continue
+        yield {"stream": "random", "op": "tsrate", "ts": ts_, "subseed": i}
     paths = ["Force HF/Force 1x", "Force HF/Force 1y", "Force LF/Force 1x", "Distance/Distance 1", "a", "ab"]
     pats = ["*", "?", "a", "a*", "*a", "?b", "Force HF/*", "*/Force 1x", "Force HF/Force 1?", "Force*1x", "*/*", "Force HF", "**", "*?*", "F*e*x", ""]
     for p in pats:
@@ -1557,6 +1605,8 @@ def extra_coverage(results):
             hit("dt:" + ("<=1e5" if c["dt"] <= 10**5 else "<=1e9" if c["dt"] <= 10**9 else "<=2^50"))
         elif c["op"] == "dtr":
             hit("dtr:arbitrary-rate")
+        elif c["op"] == "tsrate":
+            hit("tsrate:" + ("None" if r["impl"][0] == "N" else "regular"))
         elif c["op"] == "omittree":
             for st in set(r["impl"][0].strip("[]").split(",")):
                 hit("omittree:some-node-" + st)
